@@ -11,7 +11,7 @@ Domain: any list of items (glyphs with any box - no well-formedness needed -, an
 items), any LAParams (rationals, `boxes_flow` none or any number), a page box with x0 ≤ x1, y0 ≤ y1.
 Only property theorems live here; lemmas are in `Lemmas/Layout*.lean`.
 -/
-import PdfVerif.Lemmas.LayoutResult
+import PdfVerif.Lemmas.LayoutFigures
 
 namespace PdfVerif.Props.C08
 open PdfVerif PdfVerif.Gen.Layout PdfVerif.Layout
@@ -128,6 +128,40 @@ theorem C08_figure (allTexts : Bool) (p : LAParams) (bb : BB) (items : List Item
       if allTexts then analyze le p bb items
       else { children := items.map Item.toChild, groups := none, flags := {} } := by
   unfold analyzeFigure; split <;> rfl
+
+/-- Figures inside figures: the glyphs found anywhere below the analysed figures of a container are
+exactly the glyphs that were inside those figures (whatever `all_texts` is). -/
+theorem C08_conserve_glyphs_figures (allTexts : Bool) (p : LAParams) : ∀ items : List FItem, wfFigsL items →
+    (outGlyphsL (analyzeFigs le allTexts p items)).Perm (figGlyphsL items)
+  | [], _ => by simp [analyzeFigs, outGlyphsL, figGlyphsL]
+  | .ch g :: rest, h => by
+    simp only [analyzeFigs, figGlyphsL]
+    exact C08_conserve_glyphs_figures allTexts p rest h.2
+  | .other i :: rest, h => by
+    simp only [analyzeFigs, figGlyphsL]
+    exact C08_conserve_glyphs_figures allTexts p rest h.2
+  | .fig i bb ch :: rest, h => by
+    have hrest := C08_conserve_glyphs_figures allTexts p rest h.2
+    have hch := C08_conserve_glyphs_figures allTexts p ch h.1.2
+    simp only [analyzeFigs, figGlyphsL, outGlyphsL]
+    refine List.Perm.append ?_ hrest
+    cases allTexts with
+    | false => simp [FOut.glyphs]
+    | true =>
+      simp only [if_true, FOut.glyphs]
+      have hown := C08_conserve_glyphs (le := le) p bb h.1.1 (ch.map FItem.flat)
+      exact (List.Perm.append hown hch).trans (glyphsL_split ch).symm
+
+/-- **Conservation over the whole page tree** (figures nested to any depth, `all_texts` on or off): the
+multiset of glyphs found anywhere in the analysed tree - in text lines of the page, of analysed figures, or
+still raw inside figures that are not analysed - is the multiset of glyphs of the input tree. -/
+theorem C08_conserve_glyphs_nested (allTexts : Bool) (p : LAParams) (pageBB : BB) (hp : WfPage pageBB)
+    (items : List FItem) (hf : wfFigsL items) :
+    (analyzePage le allTexts p pageBB items).glyphs.Perm (glyphsL items) := by
+  simp only [analyzePage, FOut.glyphs]
+  have hown := C08_conserve_glyphs (le := le) p pageBB hp (items.map FItem.flat)
+  have hfig := C08_conserve_glyphs_figures (le := le) allTexts p items hf
+  exact (List.Perm.append hown hfig).trans (glyphsL_split items).symm
 
 /-! ### lines -/
 
